@@ -78,8 +78,98 @@ def records(c):
     c.sample({"case": cases[idx[len(idx) // 2]], "obs": res[idx[len(idx) // 2]]})
 
 
+SESS = os.path.join(vf.ROOT, "spec", "BmpSession")
+
+
+def sess_line(op):
+    if op["k"] in ("establish", "drop"):
+        return f"{op['k']} {op['p']}"
+    if op["k"] in ("announce", "withdraw"):
+        return f"{op['k']} {op['p']} {op['x']}"
+    return op["k"]
+
+
+def session(c):
+    r = vf.tlc(SESS, "BmpSession", os.path.join(SESS, "q.cfg"), workers=4, timeout=600)
+    c.add_tlc("session-design", r)
+    if r.violated:
+        c.violation("design", {"invariant": r.violated, "tlc": r.error_text[:3000]}, {"spec": "BmpSession"})
+        return
+    g = vf.tlc(SESS, "BmpSessionMC", os.path.join(SESS, "gen.cfg"), workers=4, timeout=600, want_edges=True, quiet=True)
+    edges = g.edges
+    init = vf.canon({"up": {"a": False, "b": False}, "rib": {"a": [], "b": []}, "st": "off", "known": [], "mirror": {"a": [], "b": []}})
+    seqs, covered, total = vf.cover_sequences(edges, init_key=init, max_len=60, seed=c.seed)
+    if c.tier == "thorough":
+        # every transition twice more, reached along different paths
+        for sd in (c.seed + 1, c.seed + 2):
+            more, _, _ = vf.cover_sequences(list(reversed(edges)) if sd % 2 else edges, init_key=init, max_len=25, seed=sd)
+            base = list(reversed(range(len(edges)))) if sd % 2 else list(range(len(edges)))
+            seqs += [[base[i] for i in sq] for sq in more]
+    inp = os.path.join(vf.WORK, "C19.sess.in")
+    outp = os.path.join(vf.WORK, "C19.sess.out")
+    with open(inp, "w") as f:
+        for i, sq in enumerate(seqs):
+            f.write(f"seq {i}\n")
+            for ei in sq:
+                f.write(sess_line(edges[ei]["op"]) + "\n")
+    if os.path.exists(outp):
+        os.remove(outp)
+    rc, out = vf.daemon_test("event::verif_harness::bmpsession_replay", env={"VERIF_IN": inp, "VERIF_OUT": outp}, timeout=2400)
+    if rc != 0 or not os.path.exists(outp):
+        raise vf.ToolError(f"bmpsession_replay failed rc={rc}: {out[-3000:]}")
+    lines = vf.read_jsonl(outp)
+    k = 0
+    steps = 0
+    seen = set()
+    for i, sq in enumerate(seqs):
+        assert "seq" in lines[k], lines[k]
+        k += 1
+        nxt = k + len(sq)
+        hist = []
+        for ei in sq:
+            e = edges[ei]
+            got = lines[k]
+            k += 1
+            hist.append(sess_line(e["op"]))
+            steps += 1
+            post = e["post"]
+            bad = None
+            harness_notes = [a for a in got["anomalies"] if a.startswith("harness:")]
+            if harness_notes:
+                raise vf.ToolError(f"bmpsession_replay could not drive the step {hist[-1]}: {harness_notes}")
+            anomalies = got["anomalies"]
+            exp_rib = {p: sorted(post["rib"][p]) for p in post["rib"]}
+            if got["rib"] != exp_rib:
+                raise vf.ToolError(f"bmpsession_replay: the RIB did not follow the script at {hist[-1]}: {got['rib']} vs {exp_rib}")
+            if anomalies:
+                bad = ("stream", anomalies[0])
+            elif sorted(got["known"]) != sorted(post["known"]):
+                bad = ("peers", f"station believes up: {got['known']}, established and reported per the model: {sorted(post['known'])}")
+            elif sorted(got["ups"]) != sorted(e["ups"]) or sorted(got["downs"]) != sorted(e["downs"]):
+                bad = ("updown", f"Peer Up {got['ups']} / Peer Down {got['downs']} on the stream, model: {sorted(e['ups'])} / {sorted(e['downs'])}")
+            else:
+                for p in ("a", "b"):
+                    for view in ("mirror", "mirror_post"):
+                        if sorted(got[view][p]) != sorted(post["mirror"][p]):
+                            bad = ("routes", f"{view} of peer {p}: station folded {got[view][p]}, Adj-RIB-In per the model {sorted(post['mirror'][p])}")
+            if bad:
+                sig = (bad[0], e["op"]["k"], bad[1][:60])
+                if sig not in seen:
+                    seen.add(sig)
+                    c.violation("c19.session_" + bad[0], {"what": bad[1], "op": e["op"], "history": hist[-15:]}, {"spec": "BmpSession", "ops": list(hist)})
+                break
+        k = nxt
+    c.cov["parts"]["session"] = {"model_transitions": total, "replayed": covered, "sequences": len(seqs), "steps": steps}
+    c.cov["traces_validated_against_impl"] += len(seqs)
+    c.cov["evaluations"] += steps
+    c.cov["distinct_nontrivial"] += covered
+    if seqs:
+        c.sample([sess_line(edges[ei]["op"]) for ei in seqs[0][:20]])
+
+
 def main(c):
     records(c)
+    session(c)
     c.cov["exhaustive"] = False
     c.cov["rule"] = ("every event of MonitorRecord.tla: Route Monitoring (5 views x peer family x 5 address families x add-path x "
                      "reach/unreach/end-of-rib x NLRI count {1, few, 1500, 20000} x attribute size {small, ~3.8k, ~5.2k} x next-hop "
